@@ -65,12 +65,22 @@ def _alarm(signum, frame):
     raise NonTermination()
 
 
+_guard_hits = [0]
+
+
 def guarded(fn, seconds=2):
-    """Run fn() with a wall-clock guard (the real mpf2expansion loops forever on NaN)."""
+    """Run fn() with a wall-clock guard (the real mpf2expansion loops forever on NaN).
+    Every legitimate call returns within milliseconds; after a few hits the guard is shortened so
+    that a change making many inputs diverge cannot blow the time budget."""
+    if _guard_hits[0] >= 3:
+        seconds = 0.3
     old = signal.signal(signal.SIGALRM, _alarm)
     signal.setitimer(signal.ITIMER_REAL, seconds)
     try:
         return fn()
+    except NonTermination:
+        _guard_hits[0] += 1
+        raise
     finally:
         signal.setitimer(signal.ITIMER_REAL, 0)
         signal.signal(signal.SIGALRM, old)
